@@ -12,13 +12,22 @@
       reparse  → ok <Prec.parse cppOps of the emitted tokens, fully parenthesised> | none
       wf       → true|false (node tree producible by the grammar)
       flags    → wf=… core=… cmpfree=… nofuse=… nobad=…
-  three-token ops  <op> TAB <env> TAB <node>   with <env> = blank-separated  <atom id>:i<int> | <atom id>:b<0|1>
-      evalpy   → ok i:<int> | ok b:<0|1> | out          (Tranp.Emit.denotePy)
-      evalcpp  → ok <int> | ub | noparse                (denoteCpp of Prec.parse cppOps (emitted tokens))
+      parsew   → ok <the wrapper grammar's reading of the emitted tokens (parseX, fuel 4·tokens+8), fully parenthesised> | none
+  three-token ops  <op> TAB <env> TAB <node>   with <env> = blank-separated  <atom id>:i<int> | <atom id>:b<0|1> | <atom id>:f<n> (float n/4096)
+      evalpy   → ok i:<int> | ok b:<0|1> | ok f:<n> | out | tagmismatch      (Tranp.Emit.pyEval over Lean's Float)
+      evalcpp  → ok <int> | ok f:<n> | ub | unsupported | noparse           (cEvalX of parseX (emitted tokens))
+  statements  (<block> = B <n> <stmt>{n};  <stmt> = A <var id> <hexname> <hextype> <node> | R <node> | W <node> <block>
+                                                      | I <k> (<node> <block>){k} <0|1 has else> <block>):
+      stmtemit TAB <param ids> TAB <block>                       → ok <hex line>|<hex line>|…   (emitLines typeOf (annotate params block);
+                                                                    typeOf e = the <hextype> given with the assignment of e)
+      stmtpy   TAB <param id>=<int> … TAB <lits: env syntax> TAB <fuel> TAB <block>   → scope=<scopeOK> py=<ret n | end | out>   (pyExec)
+      stmtcpp  TAB (same)                                                            → cpp=<ret n | end | ub>    (cExec of annotate params block)
 -/
 import Tranp.Driver.Common
 import Tranp.Model.Emit
 import Tranp.Model.EmitSem
+import Tranp.Model.EmitSemW
+import Tranp.Model.EmitStmt
 
 namespace Tranp.Driver.EmitFam
 open Tranp Tranp.Emit Tranp.Driver
@@ -84,6 +93,68 @@ partial def full (names : List (Nat × Str)) : Prec.Expr → String
   | .pre o e => s!"({symText o}{full names e})"
   | .paren e => full names e
 
+/-- Lean's binary64 `Float` as the interpretation of the abstract float operations (driver only) -/
+def floatOps : FOps Float where
+  ofInt := Float.ofInt
+  add := (· + ·)
+  sub := (· - ·)
+  mul := (· * ·)
+  div := (· / ·)
+  neg := fun x => -x
+  fmod := fun x y => if x.isFinite && y.isInf then x else x - (if x / y < 0 then (x / y).ceil else (x / y).floor) * y
+  pyMod := fun x y => x - (x / y).floor * y
+  lt := fun x y => x < y
+  le := fun x y => x ≤ y
+  eq := fun x y => x == y
+  isZero := fun x => x == 0
+  nonneg := fun x => x ≥ 0
+  pos := fun x => x > 0
+
+def showF (x : Float) : String :=
+  if x.isFinite then s!"f:{(x * 4096.0).toInt64}" else "f:nonfinite"
+
+def parseEnvF (s : String) : PEnv Float :=
+  let items := (s.splitOn " ").filterMap fun it =>
+    match it.splitOn ":" with
+    | [id, v] => match id.toNat? with
+      | some i =>
+        if v.startsWith "i" then (v.drop 1).toString.toInt?.map fun x => (i, PVal.int x)
+        else if v.startsWith "b" then some (i, PVal.bool ((v.drop 1).toString == "1"))
+        else if v.startsWith "f" then (v.drop 1).toString.toInt?.map fun x => (i, PVal.flt (Float.ofInt x / 4096.0))
+        else none
+      | none => none
+    | _ => none
+  fun i => (items.lookup i).getD (.int 0)
+
+mutual
+partial def showX (names : List (Nat × Str)) : X → String
+  | .plain o => showO names o
+  | .tern c a b => s!"({showO names c} ? {showX names a} : {showX names b})"
+partial def showO (names : List (Nat × Str)) : O → String
+  | .leaf b s => showB names b ++ showSufs names s
+  | .bin o l r => s!"({showO names l} {symText o} {showO names r})"
+  | .pre o e => s!"({symText o}{showO names e})"
+partial def showB (names : List (Nat × Str)) : B → String
+  | .atom i => match names.lookup i with
+    | some t => l2s t
+    | none => s!"#{i}"
+  | .name n => l2s n
+  | .paren x => showX names x
+partial def showSufs (names : List (Nat × Str)) : Sufs → String
+  | .nil => ""
+  | .member n rest => "." ++ l2s n ++ showSufs names rest
+  | .call args rest => "(" ++ ", ".intercalate (showArgs names args) ++ ")" ++ showSufs names rest
+partial def showArgs (names : List (Nat × Str)) : Args → List String
+  | .nil => []
+  | .cons x rest => showX names x :: showArgs names rest
+end
+
+def parseW (n : Node) : Option X :=
+  let ts := toksW n
+  match parseX (4 * ts.length + 8) ts with
+  | some (x, []) => some x
+  | _ => none
+
 def parseEnv (s : String) : Env :=
   let items := (s.splitOn " ").filterMap fun it =>
     match it.splitOn ":" with
@@ -96,19 +167,23 @@ def parseEnv (s : String) : Env :=
     | _ => none
   fun i => (items.lookup i).getD (.int 0)
 
-def step (st : Unit) : List String → Unit × String
+def stepExpr (st : Unit) : List String → Unit × String
   | [op, env, enc] =>
     match parseNode ((enc.splitOn " ").filter (· ≠ "")) with
     | some (n, []) =>
-      let ρ := parseEnv env
+      let ρ := parseEnvF env
       let out := match op with
-        | "evalpy" => match denotePy ρ n with
+        | "evalpy" => match pyEval floatOps ρ n with
           | .ok (.int i) => s!"ok i:{i}"
           | .ok (.bool b) => s!"ok b:{if b then 1 else 0}"
+          | .ok (.flt x) => "ok " ++ showF x
+          | .error .tagMismatch => "tagmismatch"
           | .error _ => "out"
-        | "evalcpp" => match Prec.parse cppOps (Emit.toks n) with
-          | some e => match denoteCpp ρ e with
-            | .ok i => s!"ok {i}"
+        | "evalcpp" => match parseW n with
+          | some x => match cEvalX floatOps ρ x with
+            | .ok (.i i) => s!"ok {i}"
+            | .ok (.f x) => "ok " ++ showF x
+            | .error .unsupported => "unsupported"
             | .error _ => "ub"
           | none => "noparse"
         | _ => "bad-op"
@@ -125,12 +200,107 @@ def step (st : Unit) : List String → Unit × String
         | "reparse" => match Prec.parse cppOps (Emit.toks n) with
           | some e => "ok " ++ full names e
           | none => "none"
+        | "parsew" => match parseW n with
+          | some x => "ok " ++ showX names x
+          | none => "none"
         | "wf" => s!"{wf n}"
         | "flags" => s!"wf={wf n} core={core n} cmpfree={cmpChainFree n} nofuse={noFuse n} nobad={noBadPair n}"
         | _ => "bad-op"
       (st, out)
     | _ => (st, "bad-op")
   | _ => (st, "bad-op")
+
+mutual
+partial def parseBlockN : Nat → List String → Option (Block × List (Node × Str) × List String)
+  | 0, ts => some (.nil, [], ts)
+  | k + 1, ts => match parseStmt ts with
+    | some (st, ty1, r) => (parseBlockN k r).map fun (b, ty2, r') => (.cons st b, ty1 ++ ty2, r')
+    | none => none
+partial def parseBlock : List String → Option (Block × List (Node × Str) × List String)
+  | "B" :: n :: rest => match n.toNat? with
+    | some k => parseBlockN k rest
+    | none => none
+  | _ => none
+partial def parseStmt : List String → Option (Stmt × List (Node × Str) × List String)
+  | "A" :: v :: name :: ty :: rest => match v.toNat?, Str.unhex name, Str.unhex ty, parseNode rest with
+    | some i, some nm, some t, some (e, r) => some (.assign i nm e, [(e, t)], r)
+    | _, _, _, _ => none
+  | "R" :: rest => (parseNode rest).map fun (e, r) => (.ret e, [], r)
+  | "W" :: rest => match parseNode rest with
+    | some (c, r) => (parseBlock r).map fun (b, ty, r') => (.while_ c b, ty, r')
+    | none => none
+  | "I" :: k :: rest => match k.toNat? with
+    | some (kk + 1) => match parseArms kk rest with
+      | some (arms, ty1, he :: r) => (parseBlock r).map fun (els, ty2, r') => (.ifs arms (he == "1") els, ty1 ++ ty2, r')
+      | _ => none
+    | _ => none
+  | _ => none
+/-- `k` + 1 arms -/
+partial def parseArms : Nat → List String → Option (Arms × List (Node × Str) × List String)
+  | k, ts => match parseNode ts with
+    | some (c, r) => match parseBlock r with
+      | some (b, ty1, r') => match k with
+        | 0 => some (.one c b, ty1, r')
+        | k' + 1 => (parseArms k' r').map fun (rest, ty2, r'') => (.more c b rest, ty1 ++ ty2, r'')
+      | none => none
+    | none => none
+end
+
+def blockOf (enc : String) : Option (Block × List (Node × Str)) :=
+  match parseBlock ((enc.splitOn " ").filter (· ≠ "")) with
+  | some (b, tys, []) => some (b, tys)
+  | _ => none
+
+def parseLits (s : String) : Lits :=
+  let items := (s.splitOn " ").filterMap fun it =>
+    match it.splitOn ":" with
+    | [id, v] => match id.toNat? with
+      | some i =>
+        if v.startsWith "i" then (v.drop 1).toString.toInt?.map fun x => (i, Val.int x)
+        else if v.startsWith "b" then some (i, Val.bool ((v.drop 1).toString == "1"))
+        else none
+      | none => none
+    | _ => none
+  fun i => items.lookup i
+
+def parseArgs (s : String) : Store :=
+  (s.splitOn " ").filterMap fun it =>
+    match it.splitOn "=" with
+    | [id, v] => match id.toNat?, v.toInt? with
+      | some i, some x => some (i, x)
+      | _, _ => none
+    | _ => none
+
+def showOut {S : Type} (bad : String) : Except Err (Outcome S) → String
+  | .ok (.returned v) => s!"ret {v}"
+  | .ok (.normal _) => "end"
+  | .error _ => bad
+
+def stepStmt : List String → Option String
+  | ["stmtemit", params, enc] =>
+    match blockOf enc with
+    | some (b, tys) =>
+      let ps := (params.splitOn " ").filterMap String.toNat?
+      let tyOf : Node → Str := fun e => ((tys.find? fun p => p.1 == e).map (·.2)).getD ['?']
+      some ("ok " ++ "|".intercalate ((emitLines tyOf (annotate ps b)).map Str.hex))
+    | none => some "bad-op"
+  | [op, args, lits, fuel, enc] =>
+    match blockOf enc, fuel.toNat? with
+    | some (b, _), some f =>
+      let σ := parseArgs args
+      let ps := σ.map (·.1)
+      let ls := parseLits lits
+      match op with
+      | "stmtpy" => some s!"scope={scopeOK ls [ps] b} py={showOut "out" (pyExec ls f σ b)}"
+      | "stmtcpp" => some s!"cpp={showOut "ub" (cExec ls f [σ] (annotate ps b))}"
+      | _ => some "bad-op"
+    | _, _ => some "bad-op"
+  | _ => none
+
+def step (st : Unit) (line : List String) : Unit × String :=
+  match stepStmt line with
+  | some out => (st, out)
+  | none => stepExpr st line
 
 def run : IO Unit := runFamily step ()
 
